@@ -7,7 +7,7 @@ from __future__ import annotations
 import ast
 from typing import Dict, List, Optional, Set, Tuple
 
-from ..cfg import CFG, returns_only_through
+from ..cfg import CFG, edges_guaranteeing, returns_only_through
 from ..engine import (
     AnalysisError,
     FuncNode,
@@ -54,6 +54,276 @@ def enclosing_with(node: ast.AST, lock: str) -> Optional[ast.With]:
         if isinstance(a, FuncNode + (ast.Lambda,)):
             return None
     return None
+
+
+# ---------------------------------------------------------------------------------------------------
+# provenance of values taken from the shared channel map (role discovery, independent of local names)
+# ---------------------------------------------------------------------------------------------------
+K_MAP, K_ITEMS, K_ENTRIES, K_ENTRY, K_KEYS, K_KEY = "map", "items", "entries", "entry", "keys", "key"
+PASS_THROUGH = {"list", "tuple", "sorted", "iter", "reversed"}
+
+
+def is_new_entry(e: ast.AST) -> bool:
+    """``(deque(...), Lock())`` - a freshly created channel entry."""
+    return (
+        isinstance(e, ast.Tuple) and len(e.elts) == 2
+        and isinstance(e.elts[0], ast.Call) and call_attr(e.elts[0]) == "deque"
+        and isinstance(e.elts[1], ast.Call) and call_attr(e.elts[1]) in ("Lock", "RLock")
+    )
+
+
+def fresh_entry_ok(e: ast.AST) -> Tuple[bool, str]:
+    """The value is (fresh unbounded deque, fresh lock)."""
+    why = "channel entry is not built as (deque(), Lock())"
+    if isinstance(e, ast.Tuple) and len(e.elts) == 2:
+        dq, lk = e.elts
+        if isinstance(dq, ast.Call) and call_attr(dq) == "deque" and (kwarg(dq, "maxlen") is not None or len(dq.args) > 1):
+            return False, "per-channel deque is bounded (maxlen): messages beyond the bound are silently dropped"
+        ok = (
+            isinstance(dq, ast.Call) and call_attr(dq) == "deque" and not dq.keywords and len(dq.args) == 0
+            and isinstance(lk, ast.Call) and call_attr(lk) in ("Lock", "RLock")
+        )
+        return ok, why
+    return False, why
+
+
+class Prov:
+    """Flow-insensitive kinds of expressions in the methods of one class:
+    the live map, (key, entry) item collections, entry collections, single entries, keys.
+
+    ``env[fn][name] = (kind, key)``; ``attr[name]`` for ``self.<name>`` containers fed with entries;
+    ``helper[name]`` for methods of the class returning / yielding such values.
+    ``feeds`` records the sites that put an entry into a container or hand it out of a helper
+    (``.append(entry)``, ``yield entry``, comprehension elements): routing obligations move there.
+    """
+
+    def __init__(self, cls: ast.ClassDef, map_attr: str):
+        self.cls = cls
+        self.map_attr = map_attr
+        self.methods: Dict[str, ast.AST] = {n.name: n for n in cls.body if isinstance(n, FuncNode)}
+        self.env: Dict[int, Dict[str, Tuple[str, Optional[str]]]] = {id(f): {} for f in self.methods.values()}
+        self.attr: Dict[str, str] = {}
+        self.helper: Dict[str, str] = {}
+        self.bindings: List[Tuple[ast.AST, str, str, Optional[str], ast.AST]] = []  # (fn, qvar, lockvar, keyvar, source expr)
+        # container key ("attr:x" / "name:<fnid>:x" / "helper:x") -> [(fn, site node, key name)]
+        self.feeds: Dict[str, List[Tuple[ast.AST, ast.AST, Optional[str], str]]] = {}
+        for _ in range(6):
+            before = (repr(self.env), repr(self.attr), repr(self.helper))
+            for f in self.methods.values():
+                self._scan(f, final=False)
+            if before == (repr(self.env), repr(self.attr), repr(self.helper)):
+                break
+        self.feeds = {}
+        for f in self.methods.values():
+            self._scan(f, final=True)
+
+    # -- kinds --------------------------------------------------------------------------------------
+    def kind(self, e: Optional[ast.AST], fn: ast.AST) -> Tuple[Optional[str], Optional[str]]:
+        if e is None:
+            return None, None
+        if dotted_name(e) == f"self.{self.map_attr}":
+            return K_MAP, None
+        if isinstance(e, ast.Name):
+            return self.env[id(fn)].get(e.id, (None, None))
+        if isinstance(e, ast.Attribute) and isinstance(e.value, ast.Name) and e.value.id == "self":
+            return self.attr.get(e.attr), None
+        if isinstance(e, ast.NamedExpr):
+            return self.kind(e.value, fn)
+        if isinstance(e, ast.IfExp):
+            a, b = self.kind(e.body, fn), self.kind(e.orelse, fn)
+            return a if a[0] else b
+        if isinstance(e, ast.BoolOp):
+            for v in e.values:
+                k = self.kind(v, fn)
+                if k[0]:
+                    return k
+            return None, None
+        if is_new_entry(e):
+            return K_ENTRY, None
+        if isinstance(e, ast.Subscript):
+            k, key = self.kind(e.value, fn)
+            if k == K_MAP:
+                return K_ENTRY, _name(e.slice)
+            if k in (K_ITEMS, K_ENTRIES, K_KEYS):
+                if isinstance(e.slice, ast.Slice):
+                    return k, None
+                return {K_ENTRIES: K_ENTRY, K_KEYS: K_KEY}.get(k), None
+            return None, None
+        if isinstance(e, (ast.ListComp, ast.GeneratorExp, ast.SetComp)):
+            k, _key = self.kind(e.elt, fn)
+            return (K_ENTRIES if k == K_ENTRY else K_KEYS if k == K_KEY else None), None
+        if isinstance(e, ast.Call):
+            f = e.func
+            if isinstance(f, ast.Attribute):
+                if isinstance(f.value, ast.Name) and f.value.id == "self" and f.attr in self.methods:
+                    return self.helper.get(f.attr), None
+                k, _ = self.kind(f.value, fn)
+                if k == K_MAP:
+                    if f.attr == "items":
+                        return K_ITEMS, None
+                    if f.attr == "values":
+                        return K_ENTRIES, None
+                    if f.attr == "keys":
+                        return K_KEYS, None
+                    if f.attr in ("get", "setdefault", "pop", "__getitem__"):
+                        return K_ENTRY, _name(e.args[0]) if e.args else None
+                    if f.attr == "copy":
+                        return K_MAP, None
+                if k in (K_ITEMS, K_ENTRIES, K_KEYS) and f.attr == "copy":
+                    return k, None
+            if isinstance(f, ast.Name) and e.args:
+                k, _ = self.kind(e.args[0], fn)
+                if f.id in PASS_THROUGH:
+                    return (K_KEYS if k == K_MAP else k if k in (K_ITEMS, K_ENTRIES, K_KEYS) else None), None
+                if f.id == "dict" and k == K_MAP:
+                    return K_MAP, None
+        return None, None
+
+    # -- one pass over a method ----------------------------------------------------------------------
+    def _set(self, fn: ast.AST, name: str, k: Tuple[Optional[str], Optional[str]]) -> None:
+        if k[0] is not None:
+            self.env[id(fn)][name] = k
+
+    def _bind_target(self, fn: ast.AST, target: ast.AST, k: Tuple[Optional[str], Optional[str]], src: ast.AST, final: bool) -> None:
+        kind, key = k
+        if isinstance(target, ast.Name):
+            self._set(fn, target.id, k)
+        elif isinstance(target, ast.Attribute) and isinstance(target.value, ast.Name) and target.value.id == "self":
+            if kind in (K_ENTRIES, K_ITEMS, K_KEYS) and target.attr != self.map_attr:
+                self.attr[target.attr] = kind
+                if final:
+                    self.feeds.setdefault(f"attr:{target.attr}", []).append((fn, src, None, "value"))
+        elif isinstance(target, (ast.Tuple, ast.List)) and len(target.elts) == 2 and kind == K_ENTRY:
+            a, b = target.elts
+            if isinstance(a, ast.Name) and isinstance(b, ast.Name) and final:
+                self.bindings.append((fn, a.id, b.id, key, src))
+
+    def _bind_loop(self, fn: ast.AST, target: ast.AST, it: ast.AST, final: bool) -> None:
+        k, _ = self.kind(it, fn)
+        if k == K_ITEMS and isinstance(target, (ast.Tuple, ast.List)) and len(target.elts) == 2:
+            kt, vt = target.elts
+            key = kt.id if isinstance(kt, ast.Name) else None
+            if key:
+                self._set(fn, key, (K_KEY, None))
+            self._bind_target(fn, vt, (K_ENTRY, key), it, final)
+        elif k == K_ENTRIES:
+            self._bind_target(fn, target, (K_ENTRY, None), it, final)
+        elif k in (K_KEYS, K_MAP) and isinstance(target, ast.Name):
+            self._set(fn, target.id, (K_KEY, None))
+
+    def _container_key(self, e: ast.AST, fn: ast.AST) -> Optional[str]:
+        if isinstance(e, ast.Name):
+            return f"name:{id(fn)}:{e.id}"
+        if isinstance(e, ast.Attribute) and isinstance(e.value, ast.Name) and e.value.id == "self" and e.attr != self.map_attr:
+            return f"attr:{e.attr}"
+        return None
+
+    def _scan(self, fn: ast.AST, final: bool) -> None:
+        ret_kinds: Set[str] = set()
+        for n in ast.walk(fn):
+            if isinstance(n, (ast.For, ast.AsyncFor, ast.comprehension)):
+                self._bind_loop(fn, n.target, n.iter, final)
+        for n in ast.walk(fn):
+            if isinstance(n, ast.Assign):
+                k = self.kind(n.value, fn)
+                for t in n.targets:
+                    if isinstance(t, ast.Subscript):
+                        continue
+                    self._bind_target(fn, t, k, n.value, final)
+            elif isinstance(n, ast.AnnAssign) and n.value is not None:
+                self._bind_target(fn, n.target, self.kind(n.value, fn), n.value, final)
+            elif isinstance(n, ast.NamedExpr):
+                self._bind_target(fn, n.target, self.kind(n.value, fn), n.value, final)
+            elif isinstance(n, ast.Call) and isinstance(n.func, ast.Attribute) and n.func.attr in ("append", "add", "extend", "insert", "appendleft") and n.args:
+                ck = self._container_key(n.func.value, fn)
+                arg = n.args[-1]
+                k, key = self.kind(arg, fn)
+                # a (deque, lock) pair is itself no container of entries: q.append(msg) is not a feed
+                if ck and ((k == K_ENTRY and n.func.attr != "extend") or (k == K_ENTRIES and n.func.attr == "extend")):
+                    if ck.startswith("attr:"):
+                        self.attr[ck[5:]] = K_ENTRIES
+                    else:
+                        self._set(fn, n.func.value.id, (K_ENTRIES, None))
+                    if final:
+                        self.feeds.setdefault(ck, []).append((fn, n if k == K_ENTRY else arg, key, "site" if k == K_ENTRY else "value"))
+            elif isinstance(n, ast.Return) and n.value is not None and _owner(n) is fn:
+                k, key = self.kind(n.value, fn)
+                if k:
+                    ret_kinds.add(k)
+                    if final:
+                        self.feeds.setdefault(f"helper:{fn.name}", []).append((fn, n.value, key if k == K_ENTRY else None, "entry" if k == K_ENTRY else "value"))
+            elif isinstance(n, ast.Yield) and n.value is not None and _owner(n) is fn:
+                k, key = self.kind(n.value, fn)
+                if k == K_ENTRY:
+                    ret_kinds.add(K_ENTRIES)
+                    if final:
+                        self.feeds.setdefault(f"helper:{fn.name}", []).append((fn, n, key, "site"))
+            elif isinstance(n, ast.YieldFrom) and _owner(n) is fn:
+                k, key = self.kind(n.value, fn)
+                if k == K_ENTRIES:
+                    ret_kinds.add(K_ENTRIES)
+                    if final:
+                        self.feeds.setdefault(f"helper:{fn.name}", []).append((fn, n.value, None, "value"))
+        if len(ret_kinds) == 1:
+            self.helper[fn.name] = next(iter(ret_kinds))
+
+    # -- where do the entries of a collection come from ------------------------------------------------
+    def origins(self, e: ast.AST, fn: ast.AST, seen: Optional[Set[str]] = None) -> List[Tuple[ast.AST, ast.AST, Optional[str], str]]:
+        """Sites at which the entries reaching collection expression *e* are selected:
+        (function, node, key name, how) with how in {'site', 'comp', 'unfiltered'}."""
+        seen = set() if seen is None else seen
+        out: List[Tuple[ast.AST, ast.AST, Optional[str], str]] = []
+        if isinstance(e, ast.Call) and isinstance(e.func, ast.Name) and e.func.id in PASS_THROUGH and e.args:
+            return self.origins(e.args[0], fn, seen)
+        if isinstance(e, ast.Call) and isinstance(e.func, ast.Attribute) and e.func.attr == "copy":
+            return self.origins(e.func.value, fn, seen)
+        if isinstance(e, ast.Subscript) and isinstance(e.slice, ast.Slice):
+            return self.origins(e.value, fn, seen)
+        if isinstance(e, (ast.ListComp, ast.GeneratorExp, ast.SetComp)):
+            _k, key = self.kind(e.elt, fn)
+            return [(fn, e, key, "comp")]
+        ck = None
+        if isinstance(e, ast.Call) and isinstance(e.func, ast.Attribute) and isinstance(e.func.value, ast.Name) and e.func.value.id == "self" and e.func.attr in self.methods:
+            ck = f"helper:{e.func.attr}"
+        else:
+            ck = self._container_key(e, fn)
+        if ck is None or ck in seen:
+            return [(fn, e, None, "unfiltered")] if ck is None else []
+        seen.add(ck)
+        feeds = list(self.feeds.get(ck, []))
+        if isinstance(e, ast.Name):
+            for v in _assigned(fn, e.id):
+                if self.kind(v, fn)[0] in (K_ENTRIES, K_ITEMS):
+                    out += self.origins(v, fn, seen)
+        for ffn, node, key, tag in feeds:
+            if tag in ("site", "entry"):
+                out.append((ffn, node, key, "site"))
+            else:
+                out += self.origins(node, ffn, seen)
+        if not out and not feeds:
+            out.append((fn, e, None, "unfiltered"))
+        return out
+
+
+def _name(e: ast.AST) -> Optional[str]:
+    return e.id if isinstance(e, ast.Name) else None
+
+
+def _owner(n: ast.AST) -> Optional[ast.AST]:
+    for a in ancestors(n):
+        if isinstance(a, FuncNode + (ast.Lambda,)):
+            return a
+    return None
+
+
+def _assigned(fn: ast.AST, name: str) -> List[ast.AST]:
+    out: List[ast.AST] = []
+    for n in ast.walk(fn):
+        if isinstance(n, ast.Assign) and any(isinstance(t, ast.Name) and t.id == name for t in n.targets):
+            out.append(n.value)
+        elif isinstance(n, ast.AnnAssign) and isinstance(n.target, ast.Name) and n.target.id == name and n.value is not None:
+            out.append(n.value)
+    return out
 
 
 def run(repo: Repo, R: Report) -> None:
@@ -142,35 +412,34 @@ def run(repo: Repo, R: Report) -> None:
     publish_append_locks: List[List[str]] = []
     removal_sites: List[Tuple[str, ast.AST]] = []
 
-    def map_expr(e: ast.AST, cls_name: str) -> bool:
+    prov = {TRANSPORT: Prov(tcls, shared_map), SUBSCRIPTION: Prov(scls, sub_map)}
+
+    def map_expr(e: ast.AST, cls_name: str, fn: Optional[ast.AST] = None) -> bool:
         d = dotted_name(e)
-        return d == (f"self.{shared_map}" if cls_name == TRANSPORT else f"self.{sub_map}")
+        if d == (f"self.{shared_map}" if cls_name == TRANSPORT else f"self.{sub_map}"):
+            return True
+        return fn is not None and isinstance(e, ast.Name) and prov[cls_name].kind(e, fn)[0] == K_MAP
+
+    # (queue, lock) pairs taken out of the map, found by provenance (direct, through locals, helpers, caches)
+    deque_bindings: List[Tuple[str, ast.AST, str, str, Optional[str]]] = []  # (qualname, func, qvar, lockvar, channelvar)
+    binding_src: Dict[Tuple[int, str], ast.AST] = {}
+    for cname in (TRANSPORT, SUBSCRIPTION):
+        for bfn, a, b, key, src in prov[cname].bindings:
+            tup = (f"{cname}.{bfn.name}", bfn, a, b, key)
+            if tup not in deque_bindings:
+                deque_bindings.append(tup)
+                binding_src[(id(bfn), a)] = src
+
+    r_create = R.rule("C14-D1-create-once", "an explicit store of a new channel entry into the shared map is, inside the map lock's critical section, guarded by a test that the channel has no entry yet (check and create are one atomic step)", 0)
+    creation_values: List[Tuple[str, ast.AST]] = []
 
     # per-class scan
-    deque_bindings: List[Tuple[str, ast.AST, str, str, Optional[str]]] = []  # (qualname, func, qvar, lockvar, channelvar)
     for cls, cname in ((tcls, TRANSPORT), (scls, SUBSCRIPTION)):
         for fn in [n for n in cls.body if isinstance(n, FuncNode)]:
             qn = f"{cname}.{fn.name}"
             for n in ast.walk(fn):
-                # unpacking of an entry: q, lock = M[k]
-                if isinstance(n, ast.Assign) and len(n.targets) == 1 and isinstance(n.targets[0], ast.Tuple) and len(n.targets[0].elts) == 2:
-                    if isinstance(n.value, ast.Subscript) and map_expr(n.value.value, cname) or (isinstance(n.value, ast.Call) and call_attr(n.value) in ("get", "setdefault") and isinstance(n.value.func, ast.Attribute) and map_expr(n.value.func.value, cname)):
-                        a, b = n.targets[0].elts
-                        if isinstance(a, ast.Name) and isinstance(b, ast.Name):
-                            deque_bindings.append((qn, fn, a.id, b.id, None))
-                if isinstance(n, (ast.For, ast.comprehension)):
-                    it = n.iter
-                    base = it
-                    while isinstance(base, ast.Call) and call_attr(base) in SNAPSHOT_FUNCS and base.args:
-                        base = base.args[0]
-                    if isinstance(base, ast.Call) and call_attr(base) == "items" and isinstance(base.func, ast.Attribute) and map_expr(base.func.value, cname):
-                        t = n.target
-                        if isinstance(t, ast.Tuple) and len(t.elts) == 2 and isinstance(t.elts[1], ast.Tuple) and len(t.elts[1].elts) == 2:
-                            k, (a, b) = t.elts[0], t.elts[1].elts
-                            if isinstance(a, ast.Name) and isinstance(b, ast.Name):
-                                deque_bindings.append((qn, fn, a.id, b.id, k.id if isinstance(k, ast.Name) else None))
                 # classify accesses of the map
-                if isinstance(n, ast.Subscript) and map_expr(n.value, cname):
+                if isinstance(n, ast.Subscript) and map_expr(n.value, cname, fn):
                     held = locks_held(n)
                     is_store = isinstance(n.ctx, (ast.Store, ast.Del))
                     if isinstance(n.ctx, ast.Del):
@@ -180,10 +449,18 @@ def run(repo: Repo, R: Report) -> None:
                         ok = cname == TRANSPORT and map_lock is not None and f"self.{map_lock}" in held
                         R.check(ok, r_map, F, qn, norm(stmt(n)), f"{what} the shared defaultdict without the map-level lock: two first users of a channel can each create a queue and one message is lost", n.lineno)
                         if is_store:
-                            removal_sites.append((qn, n))  # replacement of an entry
+                            st_ = stmt(n)
+                            val = getattr(st_, "value", None)
+                            if val is not None and is_new_entry(val):
+                                creation_values.append((qn, val))
+                            created = ok and _guarded_creation(n, f"self.{map_lock}", lambda e, _fn=fn, _c=cname: map_expr(e, _c, _fn))
+                            R.check(created, r_create, F, qn, norm(st_) + " [create-once]",
+                                    "a channel entry is stored without first testing, under the map lock, that the channel has none: two first publishers of a channel both create a queue, the second store replaces the first and the messages already appended to it are lost", n.lineno)
+                            if not created:
+                                removal_sites.append((qn, n))  # replacement of an entry
                     else:
                         R.ok(r_map, F, qn, norm(stmt(n)), "plain dict read", n.lineno)
-                if isinstance(n, ast.Call) and isinstance(n.func, ast.Attribute) and map_expr(n.func.value, cname):
+                if isinstance(n, ast.Call) and isinstance(n.func, ast.Attribute) and map_expr(n.func.value, cname, fn):
                     m = n.func.attr
                     held = locks_held(n)
                     if m in REMOVERS:
@@ -198,7 +475,7 @@ def run(repo: Repo, R: Report) -> None:
                         R.check(bool(snap or under), r_map, F, qn, norm(stmt(n)), "live iteration over the shared map while publishers insert (RuntimeError: dictionary changed size during iteration kills the subscriber)", n.lineno)
                     elif m in ("get", "__contains__", "copy"):
                         R.ok(r_map, F, qn, norm(stmt(n)), "atomic read", n.lineno)
-                if isinstance(n, (ast.For, ast.comprehension)) and map_expr(n.iter, cname):
+                if isinstance(n, (ast.For, ast.comprehension)) and map_expr(n.iter, cname, fn):
                     R.violation(r_map, F, qn, norm(n) if isinstance(n, ast.For) else norm(n.iter), "live iteration over the shared map while publishers insert", getattr(n, "lineno", 0))
 
     # factory creates a fresh unbounded deque and a fresh lock per channel
@@ -216,9 +493,12 @@ def run(repo: Repo, R: Report) -> None:
             if isinstance(dq, ast.Call) and (kwarg(dq, "maxlen") is not None or len(dq.args) > 1):
                 why = "per-channel deque is bounded (maxlen): messages beyond the bound are silently dropped"
         R.check(ok, r_fac, F, f"{TRANSPORT}.__init__", norm(factory), why, getattr(factory, "lineno", 0))
-    else:
+    elif not creation_values:
         R.note("shared map is not a defaultdict; explicit creation sites are covered by the map-lockset rule")
         R.ok(r_fac, F, f"{TRANSPORT}.__init__", "explicit creation", "no factory")
+    for cqn, val in creation_values:
+        okv, why = fresh_entry_ok(val)
+        R.check(okv, r_fac, F, cqn, norm(val), why, getattr(val, "lineno", 0))
 
     # ---- deque protocol ---------------------------------------------------------------
     r_cons = R.rule("C14-D2-consumer", "the consumer's emptiness test and pop are one critical section under the channel's own lock, and the pop is guarded by the test", 1)
@@ -282,7 +562,8 @@ def run(repo: Repo, R: Report) -> None:
         R.ok(r_stab, F, TRANSPORT, "no removal/replacement site on the channel map", "0 sites")
     for qn, n in removal_sites:
         held = locks_held(n)
-        safe = map_lock is not None and f"self.{map_lock}" in held and publish_append_locks and all(f"self.{map_lock}" in h for h in publish_append_locks)
+        safe = (map_lock is not None and f"self.{map_lock}" in held and publish_append_locks and all(f"self.{map_lock}" in h for h in publish_append_locks)
+                and not prov[SUBSCRIPTION].attr)  # a subscription that caches entries keeps serving a removed one
         R.check(bool(safe), r_stab, F, qn, norm(stmt(n)), "an entry is removed/replaced while publish() holds a reference fetched earlier and appends afterwards: the message lands in an orphaned deque and is never delivered", getattr(n, "lineno", 0))
 
     # ---- exactly-once hand-over + routing --------------------------------------------
@@ -354,19 +635,150 @@ def run(repo: Repo, R: Report) -> None:
         R.check(got <= {1} and bool(got), r_once, F, f"{SUBSCRIPTION}.__iter__", norm(ps) + " -> yield",
                 f"between popping a message and the next pop / end of iteration the message is yielded {sorted(got)} time(s) (0 = lost, 2 = duplicated)", ps.lineno)
 
-    def route_atom(e: ast.AST) -> Optional[bool]:
-        if isinstance(e, ast.Call) and call_attr(e) in ("fnmatch", "fnmatchcase") and len(e.args) == 2:
-            a, b = e.args
-            if isinstance(a, ast.Name) and a.id == kv and dotted_name(b) == f"self.{sub_pattern}":
-                return True
-        return None
+    def make_atom(key: Optional[str]):
+        def route_atom(e: ast.AST) -> Optional[bool]:
+            if key is not None and isinstance(e, ast.Call) and call_attr(e) in ("fnmatch", "fnmatchcase") and len(e.args) == 2 and not e.keywords:
+                a, b = e.args
+                if isinstance(a, ast.Name) and a.id == key and dotted_name(b) == f"self.{sub_pattern}":
+                    return True
+            return None
+        return route_atom
 
-    g2 = CFG(it, may_raise=lambda part: set())
-    ynodes = [n.id for n in g2.nodes if n.ast is not None and n.kind == "stmt" and any(isinstance(x, (ast.Yield, ast.YieldFrom)) for x in walk_no_nested(n.ast))]
-    pnodes = [n.id for n in g2.nodes if n.ast is not None and any(ps is n.ast for ps in pop_stmts)]
-    holds, path, guards = returns_only_through(g2, route_atom, targets=ynodes + pnodes)
-    R.check(holds and guards > 0, r_route, F, f"{SUBSCRIPTION}.__iter__", f"fnmatch({kv}, self.{sub_pattern}) dominates pop and yield",
-            "a message can be taken from / yielded for a channel that does not match the subscription pattern", it.lineno, path)
+    def routed_at(rfn: ast.AST, node: ast.AST, key: Optional[str]) -> Tuple[bool, List[str]]:
+        """Statement of *node* in *rfn* is reachable only through a branch on which fnmatch(key, pattern) holds."""
+        if key is None:
+            return False, []
+        gg = CFG(rfn, may_raise=lambda part: set())
+        st_ = stmt(node)
+        ids = [x.id for x in gg.nodes if x.ast is st_]
+        if not ids:
+            return False, []
+        holds_, path_, guards_ = returns_only_through(gg, make_atom(key), targets=ids)
+        return bool(holds_ and guards_ > 0), path_
+
+    if kv is not None:
+        g2 = CFG(it, may_raise=lambda part: set())
+        ynodes = [n.id for n in g2.nodes if n.ast is not None and n.kind == "stmt" and any(isinstance(x, (ast.Yield, ast.YieldFrom)) for x in walk_no_nested(n.ast))]
+        pnodes = [n.id for n in g2.nodes if n.ast is not None and any(ps is n.ast for ps in pop_stmts)]
+        holds, path, guards = returns_only_through(g2, make_atom(kv), targets=ynodes + pnodes)
+        R.check(holds and guards > 0, r_route, F, f"{SUBSCRIPTION}.__iter__", f"fnmatch({kv}, self.{sub_pattern}) dominates pop and yield",
+                "a message can be taken from / yielded for a channel that does not match the subscription pattern", it.lineno, path)
+    else:
+        # the consumer iterates over entries selected elsewhere (helper, generator, cached list):
+        # the routing obligation sits where an entry is selected
+        src = binding_src.get((id(it), qv))
+        sites = prov[SUBSCRIPTION].origins(src, it) if src is not None else []
+        if not sites:
+            R.violation(r_route, F, f"{SUBSCRIPTION}.__iter__", norm(src) if src is not None else "queue source",
+                        "the consumer's queues are not selected by fnmatch(<channel>, self.<pattern>) anywhere", it.lineno)
+        for sfn, node, key, how in sites:
+            sqn = f"{SUBSCRIPTION}.{getattr(sfn, 'name', '?')}"
+            if how == "comp":
+                ok_r = key is not None and any(
+                    "T" in edges_guaranteeing(cond, make_atom(key)) for gen in node.generators for cond in gen.ifs)
+                path_r: List[str] = []
+            elif how == "site":
+                ok_r, path_r = routed_at(sfn, node, key)
+            else:
+                ok_r, path_r = False, []
+            R.check(ok_r, r_route, F, sqn, norm(stmt(node)) + " [selects a queue for the consumer]",
+                    "a channel's queue is handed to the consumer without fnmatch(<its channel>, self.<pattern>) holding: messages of channels that do not match the subscription pattern are yielded", getattr(node, "lineno", 0), path_r)
+
+    # ---- scan completeness ------------------------------------------------------------------------------
+    r_scan = R.rule("C14-D3-scan-complete", "state a subscription keeps between scans to skip channels (a progress marker used to slice or to skip the scan) is computed from the snapshot that was actually scanned, never from another read of the live map", 0)
+    sp = prov[SUBSCRIPTION]
+    marker_uses: Dict[str, ast.AST] = {}
+    for mfn in sp.methods.values():
+        for n in ast.walk(mfn):
+            reads: List[ast.AST] = []
+            if isinstance(n, ast.Subscript) and isinstance(n.slice, ast.Slice) and sp.kind(n.value, mfn)[0] in (K_ITEMS, K_ENTRIES, K_KEYS):
+                reads = list(ast.walk(n.slice))
+            elif isinstance(n, (ast.If, ast.While, ast.IfExp)) and any(sp.kind(x, mfn)[0] == K_MAP for x in ast.walk(n.test)):
+                reads = list(ast.walk(n.test))
+            elif isinstance(n, ast.Call) and call_attr(n) == "islice" and n.args and sp.kind(n.args[0], mfn)[0] in (K_ITEMS, K_ENTRIES, K_KEYS, K_MAP):
+                reads = [x for a in n.args[1:] for x in ast.walk(a)]
+            for x in reads:
+                if isinstance(x, ast.Attribute) and isinstance(x.value, ast.Name) and x.value.id == "self" and x.attr not in (sub_map, sub_pattern):
+                    marker_uses.setdefault(x.attr, n)
+    for mfn in sp.methods.values():
+        if mfn.name == "__init__":
+            continue
+        for n in ast.walk(mfn):
+            tgts: List[ast.AST] = []
+            if isinstance(n, ast.Assign):
+                tgts = list(n.targets)
+            elif isinstance(n, (ast.AugAssign, ast.AnnAssign)) and n.value is not None:
+                tgts = [n.target]
+            for t in tgts:
+                if isinstance(t, ast.Attribute) and isinstance(t.value, ast.Name) and t.value.id == "self" and t.attr in marker_uses:
+                    live = [x for x in ast.walk(n.value) if sp.kind(x, mfn)[0] == K_MAP]
+                    R.check(not live, r_scan, F, f"{SUBSCRIPTION}.{mfn.name}", norm(n),
+                            f"the scan-progress marker self.{t.attr} is taken from a fresh read of the live channel map, not from the snapshot that was scanned: a channel created between the snapshot and this read counts as scanned without ever having been matched, and its messages are never delivered to this subscription", n.lineno)
+
+
+def _guarded_creation(sub: ast.Subscript, lock: str, is_map) -> bool:
+    """The store ``M[k] = ...`` lies, within ``with <lock>:``, on a branch on which ``k`` is known to have no entry."""
+    w = enclosing_with(sub, lock)
+    if w is None:
+        return False
+    key = ast.dump(sub.slice)
+    st_ = stmt(sub)
+
+    def lookup(e: ast.AST) -> bool:
+        if isinstance(e, ast.NamedExpr):
+            e = e.value
+        return (isinstance(e, ast.Call) and isinstance(e.func, ast.Attribute) and e.func.attr == "get" and is_map(e.func.value)
+                and len(e.args) in (1, 2) and ast.dump(e.args[0]) == key
+                and (len(e.args) == 1 or (isinstance(e.args[1], ast.Constant) and e.args[1].value is None)))
+
+    def fresh(name: str, before: ast.AST) -> bool:
+        """every assignment of *name* inside the critical section before *before* is a lookup of the key (at least one)."""
+        defs = []
+        for a in ast.walk(w):
+            if isinstance(a, ast.Assign):
+                names = [t.id for t in a.targets if isinstance(t, ast.Name)]
+            elif isinstance(a, ast.NamedExpr) and isinstance(a.target, ast.Name):
+                names = [a.target.id]
+            else:
+                continue
+            inside_branches = isinstance(before, ast.If) and any(_within(a, s_) for s_ in before.body + before.orelse)
+            if name in names and getattr(a, "lineno", 0) <= getattr(before, "end_lineno", getattr(before, "lineno", 0)) and not inside_branches:
+                defs.append(a)
+        return bool(defs) and all(lookup(a.value) for a in defs)
+
+    def mk_atom(at: ast.AST):
+        def is_val(e: ast.AST) -> bool:
+            return lookup(e) or (isinstance(e, ast.Name) and fresh(e.id, at))
+
+        def atom(e: ast.AST) -> Optional[bool]:
+            if isinstance(e, ast.Compare) and len(e.ops) == 1:
+                op, l, r = e.ops[0], e.left, e.comparators[0]
+                if isinstance(op, (ast.In, ast.NotIn)) and ast.dump(l) == key and is_map(r):
+                    return isinstance(op, ast.NotIn)
+                if isinstance(r, ast.Constant) and r.value is None and is_val(l):
+                    if isinstance(op, (ast.Is, ast.Eq)):
+                        return True
+                    if isinstance(op, (ast.IsNot, ast.NotEq)):
+                        return False
+            if is_val(e):
+                return False  # an entry is a non-empty tuple: truthy <=> present
+            return None
+        return atom
+
+    cur: ast.AST = st_
+    for a in ancestors(st_):
+        if a is w:
+            break
+        if isinstance(a, ast.If):
+            g = edges_guaranteeing(a.test, mk_atom(a))
+            if ("T" in g and any(_within(st_, s) for s in a.body)) or ("F" in g and any(_within(st_, s) for s in a.orelse)):
+                return True
+        if isinstance(a, ast.ExceptHandler) and a.type is not None and "KeyError" in ast.unparse(a.type):
+            t = parent(a)
+            if isinstance(t, ast.Try) and any(isinstance(x, ast.Subscript) and isinstance(x.ctx, ast.Load) and is_map(x.value) and ast.dump(x.slice) == key for s in t.body for x in ast.walk(s)):
+                return True
+        cur = a
+    return False
 
 
 def stmt(n: ast.AST) -> ast.AST:
